@@ -1357,3 +1357,65 @@ func ResolveUp(v ssa.Value, c *tctx) ssa.Value {
 	}
 	return v
 }
+
+// sameCellValue: a and b are two reads of the same field through the same pointer in one block, and nothing between
+// them can have written that field (no store to it; a call that is handed the pointer only stores elsewhere).
+func sameCellValue(a, b ssa.Value) bool {
+	ua, ok1 := a.(*ssa.UnOp)
+	ub, ok2 := b.(*ssa.UnOp)
+	if !ok1 || !ok2 || ua.Op != token.MUL || ub.Op != token.MUL || ua.Block() == nil || ua.Block() != ub.Block() {
+		return false
+	}
+	fa, ok1 := ua.X.(*ssa.FieldAddr)
+	fb, ok2 := ub.X.(*ssa.FieldAddr)
+	if !ok1 || !ok2 || fa.Field != fb.Field || !(fa.X == fb.X || sameLoad(fa.X, fb.X)) {
+		return false
+	}
+	base := fa.X
+	el := fieldElem(base.Type(), fa.Field)
+	in := false
+	for _, instr := range ua.Block().Instrs {
+		if instr == ssa.Instruction(ua) || instr == ssa.Instruction(ub) {
+			if in {
+				return true
+			}
+			in = true
+			continue
+		}
+		if !in {
+			continue
+		}
+		switch x := instr.(type) {
+		case *ssa.Store:
+			if f2, ok := x.Addr.(*ssa.FieldAddr); ok && f2.Field == fa.Field && (f2.X == base || sameLoad(f2.X, base)) {
+				return false
+			}
+			if x.Addr == base {
+				return false
+			}
+		case ssa.CallInstruction:
+			for i, arg := range x.Common().Args {
+				if arg != base {
+					continue
+				}
+				h := x.Common().StaticCallee()
+				if h == nil || h.Blocks == nil || x.Common().IsInvoke() || i >= len(h.Params) {
+					return false
+				}
+				if readOnlyParam(h.Params[i], 0) {
+					continue
+				}
+				ws, simple := outparamWrites(h.Params[i])
+				if !simple {
+					return false
+				}
+				for _, pw := range ws {
+					if len(pw.prefix) == 0 || pw.prefix[0] == el {
+						return false
+					}
+				}
+			}
+		}
+	}
+	return false
+}
